@@ -111,6 +111,11 @@ func prec(op string) int {
 type RenderOpts struct {
 	FullParens bool                  // parenthesise every binary/unary sub-expression
 	WS         func(slot int) string // optional whitespace at token boundaries (nil = minimal)
+	// SlashStarRaw keeps '/*...' as written when it is an operand of an arithmetic operator. By
+	// default such a path is spelled '/child::*...' there: the library's grammar is ambiguous for
+	// '/' '*' (open finding grammar-slash-star of C08: '2 + /*/a' is read as 2 + (/) * (/a)), and
+	// only C08 wants to meet that finding.
+	SlashStarRaw bool
 }
 
 type renderer struct {
@@ -201,9 +206,13 @@ func (r *renderer) expr(e Expr, ctx int) {
 		}
 		// left-assoc: left child at same level, right child one higher.
 		// '|' operands must be path/union expressions: anything else gets parens via level.
-		r.expr(v.L, p)
+		l, rr := v.L, v.R
+		if !r.o.SlashStarRaw && (v.Op == "+" || v.Op == "-" || v.Op == "*" || v.Op == "div" || v.Op == "mod") {
+			l, rr = avoidSlashStar(l), avoidSlashStar(rr)
+		}
+		r.expr(l, p)
 		r.tok(v.Op)
-		r.expr(v.R, p+1)
+		r.expr(rr, p+1)
 		if open {
 			r.tok(")")
 		}
@@ -214,7 +223,11 @@ func (r *renderer) expr(e Expr, ctx int) {
 			r.tok("(")
 		}
 		r.tok("-")
-		r.expr(v.X, 7)
+		x := v.X
+		if !r.o.SlashStarRaw {
+			x = avoidSlashStar(x)
+		}
+		r.expr(x, 7)
 		if open {
 			r.tok(")")
 		}
@@ -531,4 +544,27 @@ func UsesAxis(e Expr, axis string) bool {
 		}
 	})
 	return found
+}
+
+// avoidSlashStar spells the leading '/*' of an operand path as '/child::*' (see RenderOpts.SlashStarRaw).
+func avoidSlashStar(e Expr) Expr {
+	switch v := e.(type) {
+	case Path:
+		if v.Abs && v.Head == nil && len(v.Steps) > 0 {
+			s0 := v.Steps[0]
+			if !s0.DSlash && s0.Fn == nil && s0.Abbrev && s0.Axis == "child" && s0.Test.Kind == TAny {
+				out := v
+				out.Steps = append([]Step{}, v.Steps...)
+				out.Steps[0].Abbrev = false
+				return out
+			}
+		}
+	case Binary:
+		if v.Op == "|" {
+			return Binary{Op: "|", L: avoidSlashStar(v.L), R: avoidSlashStar(v.R)}
+		}
+	case Neg:
+		return Neg{X: avoidSlashStar(v.X)}
+	}
+	return e
 }
